@@ -459,7 +459,8 @@ Proof. intros e s. apply view_send_ae. Qed.
 Lemma nview_fold_leader : forall (l : list nid) now n,
   nview (fold_left (fun n x => n <| next_idx := aset x (last_idx (log n) + 1) (next_idx n) |>
                                  <| match_idx := aset x 0 (match_idx n) |>
-                                 <| last_resp := aset x now (last_resp n) |>) l n) = nview n.
+                                 <| last_resp := aset x now (last_resp n) |>
+                                 <| sr := (sr n) <| trans := adel x (trans (sr n)) |> |>) l n) = nview n.
 Proof. induction l as [|x l IH]; intros; cbn [fold_left]; auto. now rewrite IH. Qed.
 
 Lemma sview_become_leader : forall e s, sview_of (become_leader e s) = sview_of s.
